@@ -272,6 +272,70 @@ func vcall(fn string, args ...ast.Expr) *ast.CallExpr {
 	return &ast.CallExpr{Fun: &ast.SelectorExpr{X: ast.NewIdent("vsimrt"), Sel: ast.NewIdent(fn)}, Args: args}
 }
 
+var selCounter int
+
+// rewriteBlockingSelect: select without default ->
+//
+//	switch { default:
+//		vsimC<k>_0 := vsimrt.SendCase(ch, v); vsimC<k>_1 := vsimrt.RecvCase(ch2)
+//		switch vsimrt.Select(vsimC<k>_0, vsimC<k>_1) { case 0: A; case 1: x, ok := vsimC<k>_1.V, vsimC<k>_1.Ok; B }
+//	}
+//
+// (break keeps its meaning: it leaves the inner switch and then the outer one
+// ends; a label on the select stays on the outer switch; continue, goto and
+// return pass through.)
+func (r *rewriter) rewriteBlockingSelect(t *ast.SelectStmt) ast.Node {
+	chanOps++
+	r.used = true
+	selCounter++
+	var pre []ast.Stmt
+	var args []ast.Expr
+	var clauses []ast.Stmt
+	for i, c := range t.Body.List {
+		cc := c.(*ast.CommClause)
+		for j := range cc.Body {
+			cc.Body[j] = r.rewriteChans(cc.Body[j]).(ast.Stmt)
+		}
+		name := fmt.Sprintf("vsimC%d_%d", selCounter, i)
+		id := func() *ast.Ident { return ast.NewIdent(name) }
+		body := cc.Body
+		field := func(f string) ast.Expr { return &ast.SelectorExpr{X: id(), Sel: ast.NewIdent(f)} }
+		var mk ast.Expr
+		switch cm := cc.Comm.(type) {
+		case *ast.SendStmt:
+			mk = vcall("SendCase", r.rewriteChans(cm.Chan).(ast.Expr), r.rewriteChans(cm.Value).(ast.Expr))
+		case *ast.ExprStmt:
+			u, ok := cm.X.(*ast.UnaryExpr)
+			if !ok || u.Op != token.ARROW {
+				fail("%s: unexpected select communication", fset.Position(cm.Pos()))
+			}
+			mk = vcall("RecvCase", r.rewriteChans(u.X).(ast.Expr))
+		case *ast.AssignStmt:
+			u, ok := cm.Rhs[0].(*ast.UnaryExpr)
+			if !ok || u.Op != token.ARROW {
+				fail("%s: unexpected select communication", fset.Position(cm.Pos()))
+			}
+			mk = vcall("RecvCase", r.rewriteChans(u.X).(ast.Expr))
+			rhs := []ast.Expr{field("V")}
+			if len(cm.Lhs) == 2 {
+				rhs = append(rhs, field("Ok"))
+			}
+			lhs := make([]ast.Expr, len(cm.Lhs))
+			for k := range cm.Lhs {
+				lhs[k] = r.rewriteChans(cm.Lhs[k]).(ast.Expr)
+			}
+			body = append([]ast.Stmt{&ast.AssignStmt{Lhs: lhs, Tok: cm.Tok, Rhs: rhs}}, body...)
+		default:
+			fail("%s: unexpected select communication", fset.Position(cc.Pos()))
+		}
+		pre = append(pre, &ast.AssignStmt{Lhs: []ast.Expr{id()}, Tok: token.DEFINE, Rhs: []ast.Expr{mk}})
+		args = append(args, id())
+		clauses = append(clauses, &ast.CaseClause{List: []ast.Expr{&ast.BasicLit{Kind: token.INT, Value: fmt.Sprint(i)}}, Body: body})
+	}
+	inner := &ast.SwitchStmt{Tag: vcall("Select", args...), Body: &ast.BlockStmt{List: clauses}}
+	return &ast.SwitchStmt{Body: &ast.BlockStmt{List: []ast.Stmt{&ast.CaseClause{Body: append(pre, inner)}}}}
+}
+
 var exprType = reflect.TypeOf((*ast.Expr)(nil)).Elem()
 var stmtType = reflect.TypeOf((*ast.Stmt)(nil)).Elem()
 
@@ -291,7 +355,7 @@ func (r *rewriter) rewriteChans(n ast.Node) ast.Node {
 			}
 		}
 		if !hasDefault {
-			fail("%s: select without a default case: blocking select in the code under test is not supported by the simulator", fset.Position(t.Pos()))
+			return r.rewriteBlockingSelect(t)
 		}
 		// select { cases...; default: D }  ->  switch { default: if case1 {..} else if case2 {..} else { D } }
 		// (first ready case in source order: one of the behaviours select may
